@@ -294,7 +294,7 @@ class perdictable(wrapper):
     def fullargspec(self):
         return argspec_add(getargspec(self.function), expiry = None, **{o : None for o in self.output})
                                 
-    def _value_output(self, expiry = None, **inputs):
+    def _value_output(self, /, expiry = None, **inputs):
         """
         this runs a normal function that is not defined to have a dict as an output
 
@@ -341,7 +341,7 @@ class perdictable(wrapper):
             else:
                 return dictable(**{col : values})
 
-    def _dict_output(self, expiry = None, **inputs):
+    def _dict_output(self, /, expiry = None, **inputs):
         """
         this runs a function that has function.output, meaning we want the function to have a dict as an output with its keys given by function.output
 
@@ -388,7 +388,7 @@ class perdictable(wrapper):
             else:
                 return values
 
-    def wrapped(self, expiry = None, **inputs):
+    def wrapped(self, /, expiry = None, **inputs):
         if getattr(self.function, _output, None) is None:
             return self._value_output(expiry = expiry, **inputs)
         else:
